@@ -34,3 +34,94 @@ def obligations(tier):
     obs += take(c10, lambda o: 'spline' in o.id, 4)
     for o in obs: o.id = 'C03/' + o.id
     return obs
+
+
+def _xworker(mod, job):
+    """one whole-flow job run for its memory verdict only: MemFault / abort / objects alive after the matching frees"""
+    from props import calflow, yamlflow, C02, C06, C08
+    kind = job['xkind']
+    if kind == 'cal': r = calflow.cal_worker(mod, dict(job, concrete=True))
+    elif kind == 'c02': r = C02.worker(mod, job)
+    elif kind == 'c06': r = C06.io_worker(mod, job['job'])
+    elif kind == 'c08': r = C08.worker(mod, job)
+    else: r = yamlflow.worker(mod, job)
+    mem = [x for x in r.get('sat', []) if 'allocated' in str(x.get('q', '')) or 'leak' in str(x.get('q', '')).lower()]
+    conc = (r.get('concrete') or {}).get('fail') or []
+    mem += [{'q': f} for f in conc if 'allocated' in f or 'heap' in f]
+    return {'id': 'C03/x/' + str(r.get('id')), 'paths': r.get('paths', 0), 'queries': r.get('paths', 0) + (1 if r.get('concrete') else 0), 'unsat': (r.get('paths', 0) + (1 if r.get('concrete') else 0)) if not (r.get('fault') or mem) else 0,
+            'sat': mem, 'unknown': [], 'fault': r.get('fault'), 'error': r.get('error') if r.get('error') else None}
+
+
+def x_jobs(tier):
+    from props import calcfg, yamlflow, C02, C06, C08
+    J = []
+    names = [c.name for c in calcfg.configs(tier)]
+    pick = [n for n in names if any(t in n for t in ('-base', '-mapped-null', '-abbrev', '-ab-mapped', '-uneven', '-lines-only'))]
+    if tier == 'quick': pick = [n for n in pick if not n.endswith('-ab-mapped') or n.startswith(('UE14', 'E12'))]
+    J += [{'id': n, 'tier': tier, 'xkind': 'cal'} for n in pick]
+    J += [{'id': '%s-limit1' % c.name, 'cfg': c.name, 'limit': 1, 'xkind': 'c02'} for c in C02.configs()]
+    c6 = C06.jobs_for(tier)
+    J += [{'id': j['id'], 'job': j, 'xkind': 'c06'} for j in c6 if j['ports'] <= 2 and (j.get('cells') == 'const' or j['expect'] == 'refuse' or j['z0'] in ('fz0', 'complex') or j['prec'] == 'max')]
+    sp = C08.spellings(tier)
+    J += [{'id': x['id'], 'tier': tier, 'xkind': 'c08'} for x in sp if x['ports'] == 2 and ('header-order-1' in x['id'] or 'ts' in x['id'])][:60]
+    J += [dict(j, kind='C07', tier=tier, xkind='yaml') for j in yamlflow.c07_jobs(tier)]
+    return J
+
+
+def run(tier, only=None):
+    """CBMC family harnesses (instrumentation + leak check) + the whole-flow (irx) jobs of the other properties run for their memory verdict"""
+    import os, json, time, re
+    from vf import core
+    from props import calrun, calflow, calcfg
+    t0 = time.time()
+    obs = obligations(tier)
+    if only: obs = [o for o in obs if only in o.id]
+    rc_a = core.run_property('C03', obs, tier, META) if obs else 0
+    ev_a = json.load(open(os.path.join(core.VERIF, 'evidence', 'C03.json'))) if obs else None
+    ctx = core.Ctx()
+    try:
+        ml = calrun.build_whole_ir(ctx); calrun.load_module(ml)
+        jobs = [j for j in x_jobs(tier) if not only or only in ('C03/x/' + j['id'])]
+        results = calrun.run_jobs(_xworker, jobs, par=max(1, core.NCPU - 1), timeout=900, mem_gb=10) if jobs else []
+        results = [dict(r, error=r['error']) if r.get('error') else {k: v for k, v in r.items() if k != 'error'} for r in results]
+        native = calrun.Native(ctx); viol = []
+        for r, j in zip(results, jobs):
+            if r.get('error') or not (r.get('fault') or r.get('sat')): continue
+            what = ('memory fault / abort in the symbolic run of the real code: ' + r['fault']) if r.get('fault') else '; '.join(str(x.get('q')) for x in r['sat'][:4])
+            rd = os.path.join(core.VERIF, 'evidence', 'replay', 'C03_x_' + re.sub(r'\W+', '_', j['id']))
+            if j['xkind'] == 'cal': src, files = calflow.native_program(calcfg.by_name(j['id'], tier)), None
+            elif j['xkind'] == 'c02':
+                from props import C02
+                src, files = C02.native_program([c for c in C02.configs() if c.name == j['cfg']][0], 1), None
+            elif j['xkind'] == 'c06':
+                from props import C06
+                src, files = C06.native_program(j['job']), None
+            elif j['xkind'] == 'c08':
+                from props import C08
+                src, files = C08.native_program([x for x in C08.spellings(tier) if x['id'] == j['id']][0], None)
+            else:
+                from props import C07
+                src, files = C07.native_roundtrip(j), None
+            ok, how, outp = native.run_c(src, rd, extra_files=files)
+            json.dump({'property': 'C03', 'job': j['id'], 'what': what, 'native': how}, open(os.path.join(rd, 'cex.json'), 'w'), indent=1, default=str)
+            viol.append({'id': r['id'], 'what': what, 'replay': rd, 'confirmed': ok, 'how': how})
+        meta = {'checker_cmd': 'CBMC 6.11 (family harnesses)  +  clang-14 IR of the whole library -> vf/irx.py (checked heap / stack objects, leak accounting at the end of each flow)',
+                'trusted_base': (ev_a or {}).get('coverage', {}).get('trusted_base', []) + ['vf/irx.py object table and libc model', 'vf/yamlmodel.py (libyaml objects as leak tokens)'],
+                'functions': ['(CBMC part: see cbmc_part)', 'vnacal_new_alloc / add_* / solve / solve_auto / free', 'vnacal_add_calibration / save / load / free', 'vnacal_apply_m', 'vnadata_save / load / convert / free', 'Touchstone / NPD parsers'],
+                'bounds': META['bounds'] + '.  WHOLE FLOWS (irx): %d jobs - calibrate / apply / free flows of the C01 configurations (base, NULL port map, abbreviated, a/b, uneven, lines-only), solve_auto with an unknown parameter (all branch outcomes, limit 1), '
+                          'vnadata save -> load (refused combinations, complex / per-frequency impedances, constant cells, maximum precision), parser runs on generated spellings, vnacal_save -> load round trips: for EVERY value of the symbolic doubles on every explored path, '
+                          'no access outside an owned object, no use after free / double free / NULL dereference / read of never-written memory / failed library assert, nothing allocated after the matching frees (libyaml objects included)' % len(jobs),
+                'outside': 'histories longer than the stated depths, allocation faults outside vnadata (C12), vnacal parameters beyond C16.b, integer overflow / shifts in the whole-flow part (the interpreter checks memory objects, not arithmetic UB), I/O errors',
+                'explanation': META['explanation'] + '; plus the memory verdicts of the whole-flow symbolic runs (concrete control flow, symbolic doubles)',
+                'assumptions': META['assumptions'] + ['whole flows: generic values (equality tests on symbolic doubles take the unequal branch)'],
+                'samples': [{'id': r.get('id'), 'paths': r.get('paths'), 'time_s': r.get('time')} for r in results[:20]], 'evidence': False}
+        rc_b, ev = calrun.report('C03', tier, results, viol, meta, t0)
+        if ev_a:
+            ev['coverage']['obligations'] += ev_a['coverage'].get('obligations', 0); ev['coverage']['discharged'] += ev_a['coverage'].get('discharged', 0)
+            ev['coverage']['cbmc_part'] = {k: ev_a['coverage'].get(k) for k in ('obligations', 'discharged', 'solver_time_s', 'functions_encoded', 'bounds', 'samples') if k in ev_a['coverage']}
+            ev['violations'] += ev_a.get('violations', 0)
+        ev['wall_s'] = round(time.time() - t0, 1)
+        json.dump(ev, open(os.path.join(core.VERIF, 'evidence', 'C03.json'), 'w'), indent=1)
+        return 1 if 1 in (rc_a, rc_b) else max(rc_a, rc_b)
+    finally:
+        ctx.close()
